@@ -46,18 +46,18 @@ open XixiKV.Engine.BatchP (bnew_specX bput_specX fresh_of_unused)
 
 /-- **C10_engine_cursor**.  The engine iterator created by `iterNew db pre rev` from a handle whose
     index is sorted (`Inv.sorted`) shows, on the fresh iterator and after every call of every
-    admissible call sequence, the same `(Valid, Key, Pos)` as the abstract cursor
+    call sequence, the same `(Valid, Key, Pos)` as the abstract cursor
     `Abs.new rev pre db.index` — and therefore the same as the sharded heap-merging iterator
     `DBIter.new typ rev pre (shardsOf …)` for every shard function, shard count and index type. -/
 theorem C10_engine_cursor (db : DB) (pre : Key) (rev : Bool) (hsorted : SortedKeys db.index)
-    (calls : List Call) (hadm : (Abs.new rev pre db.index).admissible calls = true) :
+    (calls : List Call) :
     (iterNew db pre rev).trace calls = (Abs.new rev pre db.index).trace calls ∧
     ∀ (shardOf : Key → Nat) (n : Nat) (typ : IndexType), (∀ x ∈ db.index, shardOf x.1 < n) →
       (iterNew db pre rev).trace calls = (DBIter.new typ rev pre (shardsOf shardOf n db.index)).trace calls := by
   have h1 : (iterNew db pre rev).trace calls = (Abs.new rev pre db.index).trace calls :=
-    CSim.trace ((sorted_of_pairwise hsorted).iterOrder) calls (CSim.new db pre rev) hadm
+    CSim.trace ((sorted_of_pairwise hsorted).iterOrder) calls (CSim.new db pre rev)
   refine ⟨h1, fun shardOf n typ hshard => ?_⟩
-  rw [h1, C10.C10_cursor shardOf n typ rev pre db.index hsorted hshard calls hadm]
+  rw [h1, C10.C10_cursor shardOf n typ rev pre db.index hsorted hshard calls]
 
 /-- **C10_engine_listkeys**.  `Engine.listKeys` / `Engine.fold` are what the `ListKeys` / `Fold` loop
     over the sharded index iterator (`C10_listkeys`: `Iterator(false)`, `Rewind`, `Valid`, `Next`)
@@ -164,16 +164,15 @@ theorem C10_fold_stable (s : St) (db : DB) (g : GDir) (hdb : s.db = some db) (hi
     state the database is in at that moment,
     observed before the first and after every event — equals the transcript of the abstract cursor
     over the *creation-time* mapping `fold s db` (which lists each key with `.val v`,
-    `absGet s db k = some v`), on which writes have no effect.  Side condition: the iterator calls of
-    the run form an admissible sequence (no backward `Seek`, as in `C10_cursor`). -/
+    `absGet s db k = some v`), on which writes have no effect.  No side condition on the iterator
+    calls (`Seek` is forward-only in the engine model as in `Abs`, see `C10_cursor`). -/
 theorem C10_snapshot_transcript (s : St) (db : DB) (g : GDir) (hdb : s.db = some db) (hinv : SnapOK s db g)
-    (pre : Key) (rev : Bool) (evs : List Ev)
-    (hadm : (Abs.new rev pre db.index).admissible (callsOf evs) = true) :
+    (pre : Key) (rev : Bool) (evs : List Ev) :
     transcript s (iterNew db pre rev) evs = specTranscript (Abs.new rev pre (fold s db)) evs ∧
     (∀ x ∈ fold s db, ∃ v, x.2 = .val v ∧ absGet s db x.1 = some v) ∧
     (∀ k v, absGet s db k = some v → (k, Res.val v) ∈ fold s db) := by
   refine ⟨?_, ?_, ?_⟩
-  · have h := transcript_eq hdb hinv pre rev evs (Step.refl s) (CSim.new db pre rev) hadm
+  · have h := transcript_eq hdb hinv pre rev evs (Step.refl s) (CSim.new db pre rev)
     rw [h, Abs.mapV_new]
     rfl
   · obtain ⟨_, _, _, h⟩ := C10_fold_stable s db g hdb hinv []
@@ -194,21 +193,19 @@ theorem C10_snapshot_transcript (s : St) (db : DB) (g : GDir) (hdb : s.db = some
     transcript of the abstract cursor over the creation-time mapping. -/
 theorem C10_snapshot_transcript_sharded (s : St) (db : DB) (g : GDir) (hdb : s.db = some db)
     (hinv : SnapOK s db g) (shardOf : Key → Nat) (n : Nat) (typ : IndexType)
-    (hshard : ∀ x ∈ db.index, shardOf x.1 < n) (pre : Key) (rev : Bool) (evs : List Ev)
-    (hadm : (Abs.new rev pre db.index).admissible (callsOf evs) = true) :
+    (hshard : ∀ x ∈ db.index, shardOf x.1 < n) (pre : Key) (rev : Bool) (evs : List Ev) :
     transcriptD s (DBIter.new typ rev pre (shardsOf shardOf n db.index)) evs
       = specTranscript (Abs.new rev pre (fold s db)) evs := by
   rw [transcriptD_eq_of_trace evs s _ (iterNew db pre rev)
-    ((C10_engine_cursor db pre rev hinv.sorted _ hadm).2 shardOf n typ hshard).symm]
-  exact (C10_snapshot_transcript s db g hdb hinv pre rev evs hadm).1
+    ((C10_engine_cursor db pre rev hinv.sorted _).2 shardOf n typ hshard).symm]
+  exact (C10_snapshot_transcript s db g hdb hinv pre rev evs).1
 
-/-- **C10_engine_complete_sorted**: from any state of the engine iterator reached by an admissible
+/-- **C10_engine_complete_sorted**: from any state of the engine iterator reached by any
     call sequence, `Rewind` followed by the loop `for ; Valid(); Next()` — with every `Value` read
     after an arbitrary later history `hist` — yields exactly the creation-time pairs `(k, .val v)`
     whose key has the prefix, each once, in iteration order (strictly ordered). -/
 theorem C10_engine_complete_sorted (s : St) (db : DB) (g : GDir) (hdb : s.db = some db) (hinv : SnapOK s db g)
-    (pre : Key) (rev : Bool) (calls : List Call)
-    (hadm : (Abs.new rev pre db.index).admissible calls = true) (fuel : Nat)
+    (pre : Key) (rev : Bool) (calls : List Call) (fuel : Nat)
     (hfuel : ((iterOrder rev db.index).filter (fun x => ShardIter.hasPrefix pre x.1)).length ≤ fuel)
     (hist : List HOp) :
     ∃ db', (hrun s hist).db = some db' ∧
@@ -221,7 +218,7 @@ theorem C10_engine_complete_sorted (s : St) (db : DB) (g : GDir) (hdb : s.db = s
   obtain ⟨db', hdb', _, hall⟩ := C10_stable s db g hdb hinv hist
   have hfold : fold s db = db.index.map (fun x => (x.1, valueAt s db x.2)) := rfl
   refine ⟨db', hdb', ?_, ?_⟩
-  · have hc := complete_engine ((sorted_of_pairwise hinv.sorted).iterOrder) (CSim.new db pre rev) calls hadm
+  · have hc := complete_engine ((sorted_of_pairwise hinv.sorted).iterOrder) (CSim.new db pre rev) calls
       fuel hfuel
     rw [hc, hfold, iterOrder_map, filter_map_key (valueAt s db) (ShardIter.hasPrefix pre)]
     simp only [List.map_map]
@@ -248,8 +245,8 @@ def seeksAtStart : Bool → List Call → Bool
   | _, .next :: cs => seeksAtStart false cs
 
 /-- such sequences are admissible on every snapshot ("always true at index 0, i.e. on a fresh or just
-    rewound iterator") — a decidable, snapshot-independent sufficient condition for the hypothesis
-    `hadm` of `C10_engine_cursor` / `C10_snapshot_transcript` -/
+    rewound iterator") — a decidable, snapshot-independent sufficient condition for every `Seek` of
+    the sequence being the absolute positioning (`C10.C10_seek_absolute_when_admissible`) -/
 theorem admissible_of_seeksAtStart {V : Type} (calls : List Call) :
     ∀ (a : Abs V) (z : Bool), (z = true → a.i = 0) → seeksAtStart z calls = true → a.admissible calls = true := by
   induction calls with
@@ -426,14 +423,12 @@ example : ∃ db db', exS.db = some db ∧ (hrun exS exHist).db = some db' ∧
   obtain ⟨db', h1, _, h2⟩ := C10_stable exS db g hdb hinv exHist
   exact ⟨db, db', hdb, h1, h2⟩
 
-/-- `C10_snapshot_transcript` applied to the example events, both iterators: the admissibility
-    hypothesis is discharged by the snapshot-independent criterion `seeksAtStart` -/
+/-- `C10_snapshot_transcript` applied to the example events, both iterators -/
 example : ∃ db, exS.db = some db ∧ ∀ (pre : Key) (rev : Bool),
     transcript exS (iterNew db pre rev) exEvs = specTranscript (Abs.new rev pre (fold exS db)) exEvs := by
   obtain ⟨db, g, hdb, hinv⟩ := exS_snap
   refine ⟨db, hdb, fun pre rev => ?_⟩
-  exact (C10_snapshot_transcript exS db g hdb hinv pre rev exEvs
-    (admissible_of_seeksAtStart _ _ true (fun _ => rfl) (by decide))).1
+  exact (C10_snapshot_transcript exS db g hdb hinv pre rev exEvs).1
 
 /-- `C10_engine_cursor` applied to the example -/
 example : ∃ db, exS.db = some db ∧ ∀ (pre : Key) (rev : Bool) (typ : IndexType),
@@ -441,8 +436,7 @@ example : ∃ db, exS.db = some db ∧ ∀ (pre : Key) (rev : Bool) (typ : Index
       = (DBIter.new typ rev pre (shardsOf (fun _ => 0) 1 db.index)).trace (callsOf exEvs) := by
   obtain ⟨db, g, hdb, hinv⟩ := exS_snap
   refine ⟨db, hdb, fun pre rev typ => ?_⟩
-  exact (C10_engine_cursor db pre rev hinv.sorted (callsOf exEvs)
-    (admissible_of_seeksAtStart _ _ true (fun _ => rfl) (by decide))).2 (fun _ => 0) 1 typ
+  exact (C10_engine_cursor db pre rev hinv.sorted (callsOf exEvs)).2 (fun _ => 0) 1 typ
       (fun _ _ => Nat.zero_lt_one)
 
 /-- `C10_snapshot_transcript_sharded` applied to the example (4 shards by last byte) -/
@@ -452,7 +446,6 @@ example : ∃ db, exS.db = some db ∧ ((∀ x ∈ db.index, C10.exShard x.1 < 4
   obtain ⟨db, g, hdb, hinv⟩ := exS_snap
   refine ⟨db, hdb, fun hshard typ pre rev => ?_⟩
   exact C10_snapshot_transcript_sharded exS db g hdb hinv C10.exShard 4 typ hshard pre rev exEvs
-    (admissible_of_seeksAtStart _ _ true (fun _ => rfl) (by decide))
 #guard (match exS.db with | some db => db.index.all (fun x => C10.exShard x.1 < 4) | none => false)
 
 /-- `C10_engine_complete_sorted` applied to the example -/
@@ -463,8 +456,7 @@ example : ∃ db db', exS.db = some db ∧ (hrun exS exHist).db = some db' ∧ (
           (fun x => (some x.1, some x.2))) := by
   obtain ⟨db, g, hdb, hinv⟩ := exS_snap
   by_cases hl : db.index.length ≤ 4
-  · obtain ⟨db', h1, h2, _⟩ := C10_engine_complete_sorted exS db g hdb hinv (kb "") false [.next, .next]
-      (admissible_of_seeksAtStart _ _ true (fun _ => rfl) (by decide)) 4
+  · obtain ⟨db', h1, h2, _⟩ := C10_engine_complete_sorted exS db g hdb hinv (kb "") false [.next, .next] 4
       (Nat.le_trans (List.length_filter_le _ _) (by rw [iterOrder_length]; exact hl)) exHist
     exact ⟨db, db', hdb, h1, fun _ => h2⟩
   · obtain ⟨db', h1, _⟩ := C10_stable exS db g hdb hinv exHist
@@ -541,8 +533,7 @@ example : ∃ db db', exB.db = some db ∧ (hrun exB exHistB).db = some db' ∧
   refine ⟨db, db', hdb, h1, fun k p hm => ?_, fun pre rev => ?_⟩
   · obtain ⟨v, e1, _, e3⟩ := h2 k p hm
     exact ⟨v, e1, e3⟩
-  · exact (C10_snapshot_transcript exB db g hdb hsnap pre rev exEvsB
-      (admissible_of_seeksAtStart _ _ true (fun _ => rfl) (by decide))).1
+  · exact (C10_snapshot_transcript exB db g hdb hsnap pre rev exEvsB).1
 
 -- the mapping the iterator was created on: `c1=Y` is flushed but uncommitted, `a1=Z` only staged
 #guard (match exB.db with
@@ -556,15 +547,13 @@ example : ∃ db db', exB.db = some db ∧ (hrun exB exHistB).db = some db' ∧
   [cell "a1" "1", cell "a2" "2", cell "a2" "2", cell "b1" "3", cell "b1" "3", cell "b1" "3", cell "c1" "Y",
    cell "c1" "Y", cell "c1" "Y", cell "c1" "Y", cell "a1" "1", cell "b1" "3", cell "c1" "Y", done]
 
-/-! ## 4. why the call sequences are restricted to admissible ones — and a model/Go difference
+/-! ## 4. backward seeks and seeks on an exhausted iterator: all three agree
 
-`Engine.Iter.seek` recomputes the target from the whole snapshot, so outside the admissible class it
-still behaves like the abstract cursor on *backward* seeks, whereas the Go sharded iterator (as
-modelled by `DBIter`, reproduced on the Go `ShardedIndex`, see `C10.lean`) re-seeks only the cursors
-still in its heap and lands elsewhere.  The engine model therefore agrees with the Go iterator on
-admissible sequences only (the class C10 claims); the keys `a … f` of `C10.bwIdx` on the real
-`xxhash & 3` shards show the difference.  On an exhausted iterator both ignore `Seek`, and there
-the abstract cursor is the one that differs. -/
+`Seek` is forward-only in the Go sharded iterator (modelled by `DBIter`), in the engine model
+`Engine.Iter.seek` and in the abstract cursor `Abs.seek`.  On the keys `a … f` of `C10.bwIdx` on the
+real `xxhash & 3` shards — the instance on which the sharded iterator used to land on `c` where the
+engine model and the abstract cursor landed on `a` — a `Seek a` after two `Next` now leaves all
+three on `c`, for 4 shards as for one; and on an exhausted iterator all three ignore `Seek`. -/
 
 def bwDB : DB :=
   { (default : DB) with index := C10.bwIdx.map (fun x => (x.1, (⟨0, 0, x.2, 1⟩ : Pos))) }
@@ -574,15 +563,18 @@ def keysOf (l : List (Obs Pos)) : List (Option Key) := l.map (·.key)
 example :
     (Abs.new false ByteArray.empty bwDB.index).admissible [.next, .next, .seek (C10.k [97])] = false ∧
     keysOf ((iterNew bwDB ByteArray.empty false).trace [.next, .next, .seek (C10.k [97])])
-      = [some (C10.k [97]), some (C10.k [98]), some (C10.k [99]), some (C10.k [97])] ∧
+      = [some (C10.k [97]), some (C10.k [98]), some (C10.k [99]), some (C10.k [99])] ∧
     keysOf ((Abs.new false ByteArray.empty bwDB.index).trace [.next, .next, .seek (C10.k [97])])
-      = [some (C10.k [97]), some (C10.k [98]), some (C10.k [99]), some (C10.k [97])] ∧
+      = [some (C10.k [97]), some (C10.k [98]), some (C10.k [99]), some (C10.k [99])] ∧
     keysOf ((DBIter.new .btree false ByteArray.empty (shardsOf C10.bwShard 4 bwDB.index)).trace
+        [.next, .next, .seek (C10.k [97])])
+      = [some (C10.k [97]), some (C10.k [98]), some (C10.k [99]), some (C10.k [99])] ∧
+    keysOf ((DBIter.new .btree false ByteArray.empty (shardsOf (fun _ => 0) 1 bwDB.index)).trace
         [.next, .next, .seek (C10.k [97])])
       = [some (C10.k [97]), some (C10.k [98]), some (C10.k [99]), some (C10.k [99])] := by
   decide
 
-/-- `Seek` on an exhausted iterator: engine model and sharded iterator ignore it, `Abs` does not -/
+/-- `Seek` on an exhausted iterator: engine model, sharded iterator and `Abs` ignore it -/
 example :
     (Abs.new false ByteArray.empty bwDB.index).admissible [.seek (C10.k [103]), .seek (C10.k [98])] = false ∧
     keysOf ((iterNew bwDB ByteArray.empty false).trace [.seek (C10.k [103]), .seek (C10.k [98])])
@@ -591,7 +583,7 @@ example :
         [.seek (C10.k [103]), .seek (C10.k [98])])
       = [some (C10.k [97]), none, none] ∧
     keysOf ((Abs.new false ByteArray.empty bwDB.index).trace [.seek (C10.k [103]), .seek (C10.k [98])])
-      = [some (C10.k [97]), none, some (C10.k [98])] := by
+      = [some (C10.k [97]), none, none] := by
   decide
 
 end XixiKV.C10E
